@@ -222,7 +222,7 @@ structure Resp where
   chunkLeft : Option Nat := none       -- `HTTPResponse.chunk_left` (urllib3's own chunk parser)
   hcLeft : Option Nat := none          -- `http.client` `chunk_left`
   eom : Bool := false                  -- ghost: a chunk parser has read the empty line that ends the message
-  eof : Bool := false                  -- ghost: a chunk parser stopped discarding the trailer section at EOF
+  eofAt : Option Nat := none           -- ghost: a chunk parser stopped discarding the trailer section at EOF of this socket
 deriving Repr
 
 inductive Ev | connect (k : Nat) | send (k : Nat) | recv (k : Nat) | close (k : Nat) | put (c : Option Nat)
@@ -557,7 +557,7 @@ def hcDiscardTrailer : Nat → State → Nat → Nat → State × Option Exc
     match fpReadline (inboundLen s k + 2) s r k [] with
     | (s, .exc e) => (s, some e)
     | (s, .data line) =>
-      if line.isEmpty then (setResp s r fun x => { x with eof := true }, none)
+      if line.isEmpty then (setResp s r fun x => { x with eofAt := some k }, none)
       else if isBlankLine line then (setResp s r fun x => { x with eom := true }, none)
       else hcDiscardTrailer fuel s r k
 
@@ -818,7 +818,7 @@ def skipTrailers : Nat → State → Nat → Nat → State × Option Exc
     match fpReadline (inboundLen s k + 2) s r k [] with
     | (s, .exc e) => (s, some e)
     | (s, .data line) =>
-      if line.isEmpty then (setResp s r fun x => { x with eof := true }, none)
+      if line.isEmpty then (setResp s r fun x => { x with eofAt := some k }, none)
       else if isBlankLine line then (setResp s r fun x => { x with eom := true }, none)
       else skipTrailers fuel s r k
 
